@@ -1,0 +1,19 @@
+//go:build verif
+
+package invocation
+
+import (
+	"time"
+
+	"github.com/ucan-wg/go-ucan/token/delegation"
+)
+
+// VerifTimeBoundAt exposes verifyTimeBoundAt (the time stage of executionAllowed) at an arbitrary
+// instant. It only calls existing code. Built with -tags verif only.
+func (t *Token) VerifTimeBoundAt(at time.Time, loader delegation.Loader) error {
+	dlgs, err := t.loadProofs(loader)
+	if err != nil {
+		return err
+	}
+	return t.verifyTimeBoundAt(at, dlgs)
+}
